@@ -193,6 +193,26 @@ pub struct StuckCase {
     pub index: u64,
     pub secs: f64,
     pub ticks_moved: bool,
+    /// CPU time the worker thread consumed while sitting in this case (from /proc/self/task/<tid>/stat,
+    /// sampled by the watchdog); None when it could not be read
+    pub cpu_secs: Option<f64>,
+}
+
+/// utime + stime of one thread of this process, in seconds (Linux: fields 14 and 15 of
+/// /proc/self/task/<tid>/stat, clock ticks of 1/100 s)
+fn thread_cpu_secs(tid: u64) -> Option<f64> {
+    let s = std::fs::read_to_string(format!("/proc/self/task/{}/stat", tid)).ok()?;
+    // the command name (field 2) is parenthesised and may contain spaces
+    let rest = &s[s.rfind(')')? + 1..];
+    let f: Vec<&str> = rest.split_whitespace().collect();
+    // rest starts at field 3 (state): utime is field 14 -> index 11, stime field 15 -> index 12
+    let ut: f64 = f.get(11)?.parse().ok()?;
+    let st: f64 = f.get(12)?.parse().ok()?;
+    Some((ut + st) / 100.0)
+}
+
+fn own_tid() -> u64 {
+    std::fs::read_link("/proc/thread-self").ok().and_then(|p| p.file_name().and_then(|n| n.to_str().and_then(|t| t.parse().ok()))).unwrap_or(0)
 }
 
 /// Run all stages on `ctx.threads` workers. Returns the merged report and the stuck cases.
@@ -260,10 +280,13 @@ fn run_stage(ctx: &Ctx, st: &Stage, watchdog: Duration) -> (Report, Vec<StuckCas
     // slots: current index (u64::MAX = idle), start millis, tick counter
     let t0 = Instant::now();
     let mut slots = vec![];
+    let mut tids: Vec<Arc<AtomicU64>> = vec![];
     for w in 0..threads {
         let cur = Arc::new(AtomicU64::new(u64::MAX));
         let started = Arc::new(AtomicU64::new(0));
         let ticks = Arc::new(AtomicU64::new(0));
+        let tid = Arc::new(AtomicU64::new(0));
+        tids.push(tid.clone());
         slots.push((cur.clone(), started.clone(), ticks.clone()));
         let next = next.clone();
         let tx = tx.clone();
@@ -273,6 +296,7 @@ fn run_stage(ctx: &Ctx, st: &Stage, watchdog: Duration) -> (Report, Vec<StuckCas
             .stack_size(64 << 20)
             .spawn(move || {
                 probe::set_slot(ticks);
+                tid.store(own_tid(), Ordering::SeqCst);
                 let mut rep = Report::default();
                 loop {
                     let i = next.fetch_add(1, Ordering::SeqCst);
@@ -292,6 +316,8 @@ fn run_stage(ctx: &Ctx, st: &Stage, watchdog: Duration) -> (Report, Vec<StuckCas
     let mut total = Report::default();
     let mut done = vec![false; threads];
     let mut last_ticks: Vec<(u64, u64)> = vec![(0, 0); threads]; // (ticks, at millis)
+    // (case index, thread CPU seconds when the watchdog first saw the worker in that case)
+    let mut cpu_seen: Vec<(u64, Option<f64>)> = vec![(u64::MAX, None); threads];
     let mut stuck = vec![];
     loop {
         match rx.recv_timeout(Duration::from_millis(250)) {
@@ -320,6 +346,10 @@ fn run_stage(ctx: &Ctx, st: &Stage, watchdog: Duration) -> (Report, Vec<StuckCas
                 last_ticks[w] = (tk, now);
             }
             let run_ms = now.saturating_sub(started.load(Ordering::SeqCst));
+            // CPU accounting only for cases that have been running for a while (cheap: a few file reads per second)
+            if c != u64::MAX && run_ms > 1_000 && cpu_seen[w].0 != c {
+                cpu_seen[w] = (c, thread_cpu_secs(tids[w].load(Ordering::SeqCst)));
+            }
             if c != u64::MAX && run_ms > watchdog.as_millis() as u64 {
                 any_stuck = true;
             } else {
@@ -336,7 +366,11 @@ fn run_stage(ctx: &Ctx, st: &Stage, watchdog: Duration) -> (Report, Vec<StuckCas
                 let c = cur.load(Ordering::SeqCst);
                 let run_ms = now.saturating_sub(started.load(Ordering::SeqCst));
                 let moved = now.saturating_sub(last_ticks[w].1) < (watchdog.as_millis() as u64) / 2;
-                stuck.push(StuckCase { stage: st.name.to_string(), index: c, secs: run_ms as f64 / 1000.0, ticks_moved: moved });
+                let cpu = match (cpu_seen[w], thread_cpu_secs(tids[w].load(Ordering::SeqCst))) {
+                    ((ci, Some(c0)), Some(c1)) if ci == c => Some(c1 - c0),
+                    _ => None,
+                };
+                stuck.push(StuckCase { stage: st.name.to_string(), index: c, secs: run_ms as f64 / 1000.0, ticks_moved: moved, cpu_secs: cpu });
             }
             break;
         }
@@ -409,11 +443,16 @@ pub fn finalize(ctx: &Ctx, meta: &CheckMeta, mut rep: Report, stuck: Vec<StuckCa
     };
 
     for s in &stuck {
-        let case = J::obj().set("stage", s.stage.as_str()).set("index", s.index).set("seconds", s.secs);
-        if meta.stuck_is_violation && !s.ticks_moved {
+        let case = J::obj().set("stage", s.stage.as_str()).set("index", s.index).set("seconds", s.secs).set("thread_cpu_seconds", s.cpu_secs.unwrap_or(-1.0));
+        // "Spinning" is decided on work done, not on wall-clock time: the worker thread must have
+        // burnt at least half the watchdog period of CPU time inside this one case (about 1e11
+        // instructions on inputs of a few hundred numbers) without returning and without calling
+        // back. A loaded or suspended machine leaves the CPU figure low: that stays inconclusive.
+        let burnt = matches!(s.cpu_secs, Some(c) if c >= 0.5 * s.secs.min(90.0));
+        if meta.stuck_is_violation && !s.ticks_moved && burnt {
             rep.cur_stage = s.stage.clone();
             rep.cur_index = s.index;
-            rep.violation("no-termination", case, format!("case ran {:.0} s without finishing and without calling back: the library is spinning", s.secs));
+            rep.violation("no-termination", case, format!("case ran {:.0} s ({:.0} s of CPU time on its thread) without finishing and without calling back: the library is spinning", s.secs, s.cpu_secs.unwrap_or(0.0)));
         } else {
             rep.inconclusive("watchdog");
             println!("INCONCLUSIVE property={} watchdog fired on stage {} case {} after {:.0} s", id, s.stage, s.index, s.secs);
